@@ -368,6 +368,17 @@ func textOf(lines [][]Run, nl string, p Pool) string {
 		}
 		ls = append(ls, b.String())
 	}
+	if nl == "mix" {
+		// both spellings of the line break inside one event
+		out := ""
+		for i, l := range ls {
+			if i > 0 {
+				out += []string{`\N`, `\n`}[i%2]
+			}
+			out += l
+		}
+		return out
+	}
 	return strings.Join(ls, `\`+nl)
 }
 
